@@ -74,6 +74,18 @@ CLAIMED['C19'] = dict(
          'are out of scope.',
     ref='DESIGN.md section 3, C19')
 
+CLAIMED['C15'] = dict(
+    technique='table extraction checked against the interpreter\'s parser, sibling cross-check, backward dependence slice, CFG must-pass-through',
+    text='Static: the class->symbol tables of the unary/binary/boolean renderers agree with what ast.parse yields for each symbol, '
+         'exhaustively over the operator classes of the running interpreter (R15.1); live-value and AST container branches agree on '
+         'prefix/suffix and on count-dependence of the suffix (R15.2; the one-element AST tuple is a listed known finding); the slice of '
+         'the parenthesis decision depends on the operand side, on ** and on BoolOp parents, type-based precedences are position guarded '
+         '(R15.3); the dispatch ends in the generic fallback (R15.4); truncation and wrapping are always marked and the control-flow '
+         'exceptions cannot be swallowed (R15.5); control characters are re-spelled as their hex escape (R15.6). Decides tables and '
+         'decision dependences, not the precedence values nor the text of a rendered expression.',
+    note='Trusts astor.op_util precedences and CPython\'s ast.parse as the oracle for operator symbols.',
+    ref='DESIGN.md section 3, C15')
+
 NOT_APPLICABLE = {
     'C04': 'relation between expandName results and the interpreter import system over all projects: value computations, no clause visible in the shape of the code (DESIGN.md section 5)',
     'C06': 'quantifies over processing schedules; name resolution during the AST walk is order sensitive by design, no structural bound (DESIGN.md section 5); the one structural fact (post-processing after the drain loop) is checked under C05',
